@@ -380,6 +380,26 @@ def digests(depth=3):
     env.process(burst())
     env.run(until=200)
     h.update(repr((got, red.packets_dropped)).encode())
+    # two schedulers of one kind in one program, both with parked head-of-line packets, run twice
+    from onl.scheduler import DRR as _DRR
+    for _ in range(2):
+        env = Environment()
+        outl = []
+        try:
+            d1 = _DRR(env, 8000, {0: 1, 1: 2}); d2 = _DRR(env, 8000, {0: 1, 1: 2})
+            d1.out = d2
+            d2.out = type("T", (), {"put": staticmethod(lambda p: outl.append((env.now, p.flow_id, p.packet_id)))})()
+
+            def feed():
+                for i, (f, sz) in enumerate([(0, 2000), (1, 3000), (0, 3000), (1, 1000), (0, 2000), (1, 4000)]):
+                    d1.put(_P(env.now, sz, i, flow_id=f))
+                    if i % 2:
+                        yield env.timeout(1)
+            env.process(feed())
+            env.run(until=60)
+        except Exception as e:  # noqa
+            outl.append(("raised", type(e).__name__))
+        h.update(repr(outl).encode())
     # a hub that is built incrementally (default argument lists must not be shared between hubs / runs)
     for _ in range(2):
         env = Environment()
